@@ -85,6 +85,7 @@ extern "C" {
     fn anoncreds_credential_request_from_json(json: ByteBuffer, result_p: *mut usize) -> usize;
     fn anoncreds_create_credential(cred_def: usize, cred_def_private: usize, offer: usize, request: usize, names: FfiList<*const c_char>, raws: FfiList<*const c_char>, encs: FfiList<*const c_char>, revocation: *const c_void, result_p: *mut usize) -> usize;
     fn anoncreds_process_credential(cred: usize, md: usize, link_secret: *const c_char, cred_def: usize, rev_reg_def: usize, result_p: *mut usize) -> usize;
+    fn anoncreds_create_credential_request(entropy: *const c_char, prover_did: *const c_char, cred_def: usize, link_secret: *const c_char, link_secret_id: *const c_char, offer: usize, req_p: *mut usize, meta_p: *mut usize) -> usize;
     fn anoncreds_process_w3c_credential(cred: usize, md: usize, link_secret: *const c_char, cred_def: usize, rev_reg_def: usize, result_p: *mut usize) -> usize;
     fn anoncreds_update_revocation_status_list_timestamp_only(timestamp: i64, list: usize, result_p: *mut usize) -> usize;
     fn anoncreds_create_presentation(
@@ -245,7 +246,9 @@ fn ffi_present_revocable(l: &Loaded, ts: i32, rev_state: usize, out: *mut usize,
     }
 }
 
-const TESTS: [(&str, &str); 36] = [
+const TESTS: [(&str, &str); 38] = [
+    ("nulldata:encode", "null-data-list"),
+    ("nulldata:create_schema", "null-data-list"),
     ("handle:process-w3c-optional-rev-reg-def-stale", "stale-handle"),
     ("handle:process-w3c-optional-rev-reg-def-wrong-type", "wrong-typed-handle"),
     ("handle:revocation-state-optional-old-state-stale", "stale-handle"),
@@ -385,6 +388,15 @@ pub fn child(args: &[String]) {
             let msg = last_error().unwrap_or_default();
             println!("RC {} MSG {} HANDLEMSG {}", rc, if msg.is_empty() { 0 } else { 1 }, if msg.contains("nvalid object handle") || msg.contains("Expected") { 1 } else { 0 });
             return;
+        }
+        // a list whose data pointer is null is an empty list, whatever its count says
+        "nulldata:encode" => {
+            let mut p: *const c_char = std::ptr::null();
+            unsafe { anoncreds_encode_credential_attributes(FfiList { count: 1, data: std::ptr::null() }, &mut p) }
+        }
+        "nulldata:create_schema" => {
+            let (n, v, i) = (cs("gvt"), cs("1.0"), cs("did:web:x"));
+            unsafe { anoncreds_create_schema(n.as_ptr(), v.as_ptr(), i.as_ptr(), FfiList { count: 2, data: std::ptr::null() }, &mut okh) }
         }
         "handle:present-optional-rev-state-stale" => ffi_present_revocable(&l, 100, stale, &mut okh, 0, 0),
         "handle:offer-kcp-wrong-type" => {
@@ -645,6 +657,63 @@ pub fn run(tier: &str, _seed: u64, outdir: &str) {
                 }
             }
         }
+        // an issuer id that is no identifier is refused by the conversion, as natively
+        for bad in ["bob", "", "not an id", "did:"] {
+            let native_ok = anoncreds::data_types::issuer_id::IssuerId::new(bad).is_ok();
+            let ic = cs(bad);
+            let mut wh = 0usize;
+            let rc = unsafe { anoncreds_credential_to_w3c(l.cred0, ic.as_ptr(), std::ptr::null(), &mut wh) };
+            let issuer_ok = rc != 0 || get_json(wh).map(|v| anoncreds::data_types::issuer_id::IssuerId::new(v["issuer"].as_str().unwrap_or("")).is_ok()).unwrap_or(false);
+            a(&format!("credential_to_w3c:issuer-id-{}", if bad.is_empty() { "empty" } else { bad }), (rc == 0) == native_ok && issuer_ok, &mut out);
+        }
+        // credential requests: entropy / prover DID present, absent, or present and EMPTY (an empty string is a string)
+        {
+            let c0 = &w.cds[0];
+            let (sidc, cidc) = (cs(&c0.schema_id), cs(&c0.cred_def_id));
+            let mut offer_h = 0usize;
+            unsafe { anoncreds_create_credential_offer(sidc.as_ptr(), cidc.as_ptr(), l.kcp0, &mut offer_h) };
+            let offer: Option<anoncreds::types::CredentialOffer> = get_json(offer_h).and_then(|v| serde_json::from_value(v).ok());
+            let ls = cs(l.d["link_secret"].as_str().unwrap());
+            let lsid = cs("ls");
+            for e in [None, Some(""), Some("entropy")] {
+                for d in [None, Some(""), Some("NcYxiDXkpYi6ov5FcYDi1e"), Some("did:web:x")] {
+                    let native_ok = offer.as_ref().map(|o| anoncreds::prover::create_credential_request(e, d, &c0.cred_def, &w.holders[0], "ls", o).is_ok()).unwrap_or(false);
+                    let (ec, dc) = (e.map(cs), d.map(cs));
+                    let (mut rh, mut mh) = (0usize, 0usize);
+                    let rc = unsafe {
+                        anoncreds_create_credential_request(ec.as_ref().map_or(std::ptr::null(), |c| c.as_ptr()), dc.as_ref().map_or(std::ptr::null(), |c| c.as_ptr()), l.cred_def0, ls.as_ptr(), lsid.as_ptr(), offer_h, &mut rh, &mut mh)
+                    };
+                    // what the request carries is what was given
+                    let carried = if rc == 0 { get_json(rh).map(|v| v["entropy"].as_str().map(|x| x.to_string()) == e.map(|x| x.to_string()) && v["prover_did"].as_str().map(|x| x.to_string()) == d.map(|x| x.to_string())).unwrap_or(false) } else { true };
+                    a(&format!("create_credential_request:entropy-{}:did-{}", match e { None => "absent", Some("") => "empty", _ => "given" }, match d { None => "absent", Some("") => "empty", Some(x) if x.starts_with("did:") => "uri", _ => "legacy" }), (rc == 0) == native_ok && carried, &mut out);
+                }
+            }
+        }
+        // id lists with a repeated id: the handle at position i belongs to the id at position i
+        {
+            let ctx2 = vw::build_ctx(&w, &vw::VCtx::full(&w));
+            let req: anoncreds::data_types::pres_request::PresentationRequest = serde_json::from_value(docs["request"].clone()).unwrap();
+            let pres: anoncreds::data_types::presentation::Presentation = serde_json::from_value(docs["presentation"].clone()).unwrap();
+            let native = vw::verify_legacy(&pres, &req, &ctx2);
+            let mut cd3 = 0usize;
+            unsafe { anoncreds_credential_definition_from_json(buf(&serde_json::to_value(&w.cds[3].cred_def).unwrap()), &mut cd3) };
+            let (c0, c1, c3) = (w.cds[0].cred_def_id.clone(), w.cds[1].cred_def_id.clone(), w.cds[3].cred_def_id.clone());
+            let sid0 = w.cds[0].schema_id.clone();
+            // (name, handles, ids): every list pairs each id with ITS definition, so the verdict is the native one
+            let variants: Vec<(&str, Vec<usize>, Vec<&str>)> = vec![
+                ("plain", vec![l.cred_def0], vec![c0.as_str()]),
+                ("other-first", vec![cd3, l.cred_def0], vec![c3.as_str(), c0.as_str()]),
+                ("needed-listed-twice-first", vec![l.cred_def0, l.cred_def0, cd3], vec![c0.as_str(), c0.as_str(), c3.as_str()]),
+                ("other-listed-twice-first", vec![cd3, cd3, l.cred_def0], vec![c3.as_str(), c3.as_str(), c0.as_str()]),
+                ("other-twice-needed-between", vec![l.cred_def1, l.cred_def0, l.cred_def1], vec![c1.as_str(), c0.as_str(), c1.as_str()]),
+            ];
+            for (vname, hs, ids) in variants.iter() {
+                let mut res: i8 = -1;
+                let rc = ffi_verify(&l, false, l.presentation, l.request, &[l.schema, l.schema], &[&sid0, &sid0], hs, ids, &[], &[], &[], &mut res);
+                let ffi = if rc != 0 { "err" } else if res == 1 { "accept" } else { "reject" };
+                a(&format!("verify:id-lists-{}", vname), native == ffi, &mut out);
+            }
+        }
         // revocation status lists: creation and updates with index lists
         let mut rp = 0usize;
         unsafe { anoncreds_revocation_registry_definition_private_from_json(buf(&serde_json::to_value(&w.reg.def_priv).unwrap()), &mut rp) };
@@ -785,6 +854,12 @@ pub fn run(tier: &str, _seed: u64, outdir: &str) {
         }
     });
     for ((test, kind), (rc, msg, hmsg)) in TESTS.iter().zip(results) {
+        if *kind == "null-data-list" {
+            // as natively on an empty list: encoding nothing succeeds, a schema without attributes is refused; no crash
+            let expect_ok = *test == "nulldata:encode";
+            a(test, rc.chars().all(|c| c.is_ascii_digit()) && !rc.is_empty() && (rc == "0") == expect_ok, &mut out);
+            continue;
+        }
         let id = out.next_id();
         out.case(
             &format!("(C17 {} B {} {} {} {} {})", id, sx::s(test), sx::s(kind), sx::s(&rc), sx::boolean(msg), sx::boolean(hmsg)),
